@@ -38,7 +38,7 @@ claim("C06", "other",
 
 claim("C07", "other",
   "Sound sufficient condition for set-semantics and monotonicity of the allowed list: independent construction of allowed nodes (S1), only permutation/compaction before use (S3), the allowed nodes occur in the derived verdict formula only as the domain of one positive existential (S2), the caller's list is only read (S4), spacing cannot reach the parser (W1), letter case is canonicalised before any comparison (K0-K3).",
-  "S3 follows the node slice through every function it reaches and requires the compaction to drop an element only when its canonical text equals its neighbour's; the letter-case clause is decided by the canonicalisation chain K0-K3 (same rules as C09); the matcher-purity premise of S2 is checked (X4). Residual not decided: equal canonical text implies equal node fields.",
+  "S3 follows the node slice through every function it reaches and requires the compaction to drop an element only when its canonical text equals its neighbour's; the letter-case clause is decided by the canonicalisation chain K0-K3 (same rules as C09); the matcher-purity premise of S2 and the quantifier shape of the verdict are checked (X4). Residual not decided: equal canonical text implies equal node fields.",
   "loop-to-quantifier summarisation with polarity + taint + write-set classification", "DESIGN.md section 3 C07")
 
 claim("C10", "other",
@@ -57,7 +57,7 @@ claim("C05", "other",
   "writer/reader table agreement + linear entailment on cursor arithmetic + abstract interpretation of the token cursor", "DESIGN.md section 3 C05")
 
 claim("C09", "other",
-  "Table clauses exhaustive over all listed ids (fold-uniqueness under the exact relation strings.EqualFold implements; no id has a case variant beginning with a scanner keyword), code clauses by provenance (the lookup folds and returns list spelling; only list spelling reaches tokens and node fields; later comparisons are between canonical strings; K5: behind a successful lookup/normalisation no scanner branch mentions the raw id text).",
+  "Table clauses exhaustive over all listed ids (fold-uniqueness under the exact relation strings.EqualFold implements; no id has a case variant beginning with a scanner keyword), code clauses by provenance (the lookup folds and returns list spelling; only list spelling reaches tokens and node fields; later comparisons are between canonical strings; K5: behind a successful lookup/normalisation no scanner branch mentions the raw id text; K6: before recognition the raw id is judged only through the folding lookups, constant-suffix tests and '+' probes (the normalisation resolves into the decision list C08 evaluates)).",
   "Operators, reference prefixes and -only/-or-later suffixes are matched case-sensitively by construction and are outside the property. Output casing relies on C06 E3.",
   "exhaustive table lint + provenance of token and node text", "DESIGN.md section 3 C09")
 
